@@ -312,11 +312,16 @@ type fsFault struct {
 	Len    int
 	NoSpc  bool
 	Target int // which operation of the case it is armed in (meaning is the harness's)
+	// Stall > 0: no error; each of the Len steps takes this long instead (a stalled disk)
+	Stall time.Duration
 }
 
 func (f fsFault) String() string {
 	if !f.On {
 		return "no disk fault"
+	}
+	if f.Stall > 0 {
+		return fmt.Sprintf("disk stall: %d step(s) take %v each, %d steps into operation %d", f.Len, f.Stall, f.Delta, f.Target)
 	}
 	e := "EIO"
 	if f.NoSpc {
@@ -329,7 +334,11 @@ func genFSFault(w *simrt.Choices, nTargets int) fsFault {
 	if nTargets <= 0 || w.Choose(2) != 0 {
 		return fsFault{}
 	}
-	return fsFault{On: true, Delta: w.Choose(14), Len: []int{1, 1, 1, 2, 4, 30}[w.Choose(6)], NoSpc: w.Choose(2) == 0, Target: w.Choose(nTargets)}
+	f := fsFault{On: true, Delta: w.Choose(14), Len: []int{1, 1, 1, 2, 4, 30}[w.Choose(6)], NoSpc: w.Choose(2) == 0, Target: w.Choose(nTargets)}
+	if w.Choose(4) == 0 {
+		f.Stall = []time.Duration{200 * time.Millisecond, 2 * time.Second, 7 * time.Second}[w.Choose(3)]
+	}
+	return f
 }
 
 // arm installs the fault on the simulated disk of this run; the returned
@@ -340,6 +349,13 @@ func (f fsFault) arm(s *simrt.Sim) (disarm func() int) {
 		return func() int { return 0 }
 	}
 	before := fsys.Fired
+	if f.Stall > 0 {
+		fsys.SlowAt, fsys.SlowLen, fsys.SlowBy = fsys.Steps+1+f.Delta, f.Len, f.Stall
+		return func() int {
+			fsys.SlowAt, fsys.SlowLen, fsys.SlowBy = 0, 0, 0
+			return 0
+		}
+	}
 	fsys.FailAt, fsys.FailLen = fsys.Steps+1+f.Delta, f.Len
 	if f.NoSpc {
 		fsys.FailErr = syscall.ENOSPC
